@@ -1,5 +1,9 @@
-use super::{full_path_prefix, BoundQuery, Query, QueryValidationError, Selection, SelectionId};
+use super::{
+    full_path_prefix, BoundQuery, Query, QueryValidationError, ResolvedFragmentId, Selection,
+    SelectionId,
+};
 use crate::schema::TypeId;
+use std::collections::BTreeSet;
 
 pub(super) fn validate_typename_presence(
     query: &BoundQuery<'_>,
@@ -51,6 +55,21 @@ fn selection_set_contains_type_name(
     selection_set: &[SelectionId],
     query: &Query,
 ) -> bool {
+    let mut visited_fragments = BTreeSet::new();
+    selection_set_contains_type_name_inner(
+        parent_type_id,
+        selection_set,
+        query,
+        &mut visited_fragments,
+    )
+}
+
+fn selection_set_contains_type_name_inner(
+    parent_type_id: TypeId,
+    selection_set: &[SelectionId],
+    query: &Query,
+    visited_fragments: &mut BTreeSet<ResolvedFragmentId>,
+) -> bool {
     for id in selection_set {
         let selection = query.get_selection(*id);
 
@@ -58,8 +77,15 @@ fn selection_set_contains_type_name(
             Selection::Typename => return true,
             Selection::FragmentSpread(fragment_id) => {
                 let fragment = query.get_fragment(*fragment_id);
+                // Fragments can spread each other in a cycle: look into each one only once.
                 if fragment.on == parent_type_id
-                    && selection_set_contains_type_name(fragment.on, &fragment.selection_set, query)
+                    && visited_fragments.insert(*fragment_id)
+                    && selection_set_contains_type_name_inner(
+                        fragment.on,
+                        &fragment.selection_set,
+                        query,
+                        visited_fragments,
+                    )
                 {
                     return true;
                 }
